@@ -583,7 +583,8 @@ class Dict(dict, base.Symbolic, pg_typing.CustomTyping):
         and self.sym_parent.sym_path == self.sym_path):
       target = self.sym_parent
     return base.FieldUpdate(
-        self.sym_path + key, target, field, old_value, new_value)
+        utils.KeyPath(key, self.sym_path),
+        target, field, old_value, new_value)
 
   def _formalized_value(
       self, name: Union[str, int],
@@ -804,7 +805,8 @@ class Dict(dict, base.Symbolic, pg_typing.CustomTyping):
     if flags.is_change_notification_enabled():
       self._notify_field_updates([
           base.FieldUpdate(
-              self.sym_path + key, self, None, value, pg_typing.MISSING_VALUE)
+              utils.KeyPath(key, self.sym_path),
+              self, None, value, pg_typing.MISSING_VALUE)
       ])
     else:
       self._sym_reset_content_caches()
@@ -846,7 +848,8 @@ class Dict(dict, base.Symbolic, pg_typing.CustomTyping):
         if old_value is not new_value:
           field = value_spec.schema.get_field(k) if value_spec else None
           updates.append(base.FieldUpdate(
-              self.sym_path + k, self, field, old_value, new_value))
+              utils.KeyPath(k, self.sym_path),
+              self, field, old_value, new_value))
       if updates:
         self._notify_field_updates(updates)
     else:
